@@ -36,6 +36,9 @@ EXPLANATION = (
 )
 
 
+TECHNIQUE = TECHNIQUE + '; the dynamic- and fixed-array next-initialised searches against one reference are shared harnesses of k/src/c10.rs'
+
+
 def run(ctx):
     # c10.rs: the `prop=C10,C13` harnesses (dynamic-array and fixed-array next-initialised search == the same reference, spacing 8)
     ctx.run_kani(['c13.rs', 'c10.rs'])
